@@ -137,6 +137,15 @@ def run_engine(ctx, want: str) -> None:
             ctx.violation(f"C14:{pname(key)}:invariants:" + "+".join(names),
                           dict(program=_prog_of(programs, int(key.split(':', 1)[0])), passes=pname(key),
                                message=f"after {pname(key)} the IR breaks {names} (evaluated by TLC on the observed model)"))
+        # the library's own check of the Identity clause (PassBase.__call__) raising on a valid model: the pass object
+        # broke the clause (it returned the input object although declared functional, or the other way round)
+        for k, ids in raised.items():
+            if "declared not in-place" in k or "declared in-place" in k:
+                key = ids[0].split(":round")[0]
+                pid = int(key.split(":", 1)[0])
+                ctx.violation(f"C14:{pname(key)}:Identity:reported-by-the-pass-infrastructure",
+                              dict(program=_prog_of(programs, pid), program_id=pid, passes=pname(key), cases=len(ids),
+                                   message=f"{pname(key)} was stopped by the pass infrastructure's own identity check: {k}"))
         for key, clauses in app_res.items():
             single = "+" not in pname(key)      # a single pass; the pass manager (PM...) is a pass in its own right
             ctx._distinct.add("app|" + pname(key))
